@@ -119,7 +119,11 @@ func (dht *IpfsDHT) optimisticProvide(outerCtx context.Context, keyMH multihash.
 	// put operations have finished to avoid the long tail of the latency distribution. If we
 	// provided the outer context the put operations may be cancelled depending on what happens
 	// with the context on the user side.
-	putCtx, putCtxCancel := context.WithTimeout(dht.ctx, time.Minute)
+	// The put operations get one minute once the lookup has finished (see
+	// below); the budget must not start before the lookup, which may itself take
+	// longer than that and would leave every remaining put with an expired
+	// context.
+	putCtx, putCtxCancel := context.WithCancel(dht.ctx)
 
 	es, err := dht.newOptimisticState(putCtx, key)
 	if err != nil {
@@ -145,8 +149,12 @@ func (dht *IpfsDHT) optimisticProvide(outerCtx context.Context, keyMH multihash.
 
 	lookupRes, err := dht.runLookupWithFollowup(outerCtx, key, dht.pmGetClosestPeers(key), es.stopFn)
 	if err != nil {
+		putCtxCancel()
 		return err
 	}
+
+	// bound the put operations, including those still running after we return
+	time.AfterFunc(time.Minute, putCtxCancel)
 
 	// Store the provider records with all the closest peers we haven't already contacted/scheduled interaction with.
 	es.peerStatesLk.Lock()
